@@ -69,3 +69,68 @@ static inline int post_verif_split(sv_t shape, int n, svpair_t ret)
       && IMPLIES(g < SV_LEN(shape), g < p ? SV_AT(TUP_GET(ret, 0), g) == SV_AT(shape, g)
                                           : SV_AT(TUP_GET(ret, 1), g - p) == SV_AT(shape, g));
 }
+
+/* ------------------------------------------------------------------ matmul element selection (index::matmul, used by matmul_t::view_at)
+ * result element (..batch.., i, j) = sum_k A[bA.., i, k] * B[bB.., k, j]: the left slice is (bA.., i, :), the right one (bB.., :, j) where
+ * bA / bB is the batch index right-aligned to the operand's batch axes with 0 on axes the operand has with extent 1 (broadcast).
+ * Fixed-rank kinds (loop-free); `all` (the ':' slice) is the empty tuple<none,none>.  Precondition: shape is the matmul result shape
+ * of (l, r) as established by matmul_t's constructor, idx lies inside it. */
+#define MS_SEL(ext, ix)  ((ext) == 1UL ? 0UL : (ix))
+#define MS_BC_OK(x, y)   ((x) == (y) || (x) == 1UL || (y) == 1UL)
+#define MS_IN(idx, shape, n) ms_in(&ARR_AT(idx, 0), &ARR_AT(shape, 0), n)
+static inline int ms_in(const unsigned long *idx, const unsigned long *shape, unsigned long n)
+{ int e = 1; for (unsigned long k = 0; k < 4; k++) if (k < n) e = e && shape[k] >= 1UL && idx[k] < shape[k]; return e; }
+static inline int ms_pos(const unsigned long *shape, unsigned long n)
+{ int e = 1; for (unsigned long k = 0; k < 4; k++) if (k < n) e = e && shape[k] >= 1UL; return e; }
+
+static inline int pre_verif_matmul_slices_22(a2_t idx, a2_t l, a2_t r, a2_t shape)
+{ return ms_pos(&ARR_AT(l, 0), 2) && ms_pos(&ARR_AT(r, 0), 2) && ARR_AT(l, 1) == ARR_AT(r, 0)
+      && ARR_AT(shape, 0) == ARR_AT(l, 0) && ARR_AT(shape, 1) == ARR_AT(r, 1) && MS_IN(idx, shape, 2); }
+static inline int post_verif_matmul_slices_22(a2_t idx, a2_t l, a2_t r, a2_t shape, sl22_t ret)
+{ return TUP_GET(TUP_GET(ret, 0), 0) == ARR_AT(idx, 0) && TUP_GET(TUP_GET(ret, 0), 0) < ARR_AT(l, 0)
+      && TUP_GET(TUP_GET(ret, 1), 1) == ARR_AT(idx, 1) && TUP_GET(TUP_GET(ret, 1), 1) < ARR_AT(r, 1); }
+
+static inline int pre_verif_matmul_slices_33(a3_t idx, a3_t l, a3_t r, a3_t shape)
+{ return ms_pos(&ARR_AT(l, 0), 3) && ms_pos(&ARR_AT(r, 0), 3) && ARR_AT(l, 2) == ARR_AT(r, 1)
+      && MS_BC_OK(ARR_AT(l, 0), ARR_AT(r, 0)) && ARR_AT(shape, 0) == MAXU(ARR_AT(l, 0), ARR_AT(r, 0))
+      && ARR_AT(shape, 1) == ARR_AT(l, 1) && ARR_AT(shape, 2) == ARR_AT(r, 2) && MS_IN(idx, shape, 3); }
+static inline int post_verif_matmul_slices_33(a3_t idx, a3_t l, a3_t r, a3_t shape, sl33_t ret)
+{ return TUP_GET(TUP_GET(ret, 0), 0) == MS_SEL(ARR_AT(l, 0), ARR_AT(idx, 0)) && TUP_GET(TUP_GET(ret, 0), 0) < ARR_AT(l, 0)
+      && TUP_GET(TUP_GET(ret, 0), 1) == ARR_AT(idx, 1) && TUP_GET(TUP_GET(ret, 0), 1) < ARR_AT(l, 1)
+      && TUP_GET(TUP_GET(ret, 1), 0) == MS_SEL(ARR_AT(r, 0), ARR_AT(idx, 0)) && TUP_GET(TUP_GET(ret, 1), 0) < ARR_AT(r, 0)
+      && TUP_GET(TUP_GET(ret, 1), 2) == ARR_AT(idx, 2) && TUP_GET(TUP_GET(ret, 1), 2) < ARR_AT(r, 2); }
+
+/* (b0,b1,n,k) x (k,m) -> (b0,b1,n,m) */
+static inline int pre_verif_matmul_slices_42(a4_t idx, a4_t l, a2_t r, a4_t shape)
+{ return ms_pos(&ARR_AT(l, 0), 4) && ms_pos(&ARR_AT(r, 0), 2) && ARR_AT(l, 3) == ARR_AT(r, 0)
+      && ARR_AT(shape, 0) == ARR_AT(l, 0) && ARR_AT(shape, 1) == ARR_AT(l, 1)
+      && ARR_AT(shape, 2) == ARR_AT(l, 2) && ARR_AT(shape, 3) == ARR_AT(r, 1) && MS_IN(idx, shape, 4); }
+static inline int post_verif_matmul_slices_42(a4_t idx, a4_t l, a2_t r, a4_t shape, sl42_t ret)
+{ return TUP_GET(TUP_GET(ret, 0), 0) == MS_SEL(ARR_AT(l, 0), ARR_AT(idx, 0)) && TUP_GET(TUP_GET(ret, 0), 0) < ARR_AT(l, 0)
+      && TUP_GET(TUP_GET(ret, 0), 1) == MS_SEL(ARR_AT(l, 1), ARR_AT(idx, 1)) && TUP_GET(TUP_GET(ret, 0), 1) < ARR_AT(l, 1)
+      && TUP_GET(TUP_GET(ret, 0), 2) == ARR_AT(idx, 2) && TUP_GET(TUP_GET(ret, 0), 2) < ARR_AT(l, 2)
+      && TUP_GET(TUP_GET(ret, 1), 1) == ARR_AT(idx, 3) && TUP_GET(TUP_GET(ret, 1), 1) < ARR_AT(r, 1); }
+
+/* (n,k) x (b0,b1,k,m) -> (b0,b1,n,m) */
+static inline int pre_verif_matmul_slices_24(a4_t idx, a2_t l, a4_t r, a4_t shape)
+{ return ms_pos(&ARR_AT(l, 0), 2) && ms_pos(&ARR_AT(r, 0), 4) && ARR_AT(l, 1) == ARR_AT(r, 2)
+      && ARR_AT(shape, 0) == ARR_AT(r, 0) && ARR_AT(shape, 1) == ARR_AT(r, 1)
+      && ARR_AT(shape, 2) == ARR_AT(l, 0) && ARR_AT(shape, 3) == ARR_AT(r, 3) && MS_IN(idx, shape, 4); }
+static inline int post_verif_matmul_slices_24(a4_t idx, a2_t l, a4_t r, a4_t shape, sl24_t ret)
+{ return TUP_GET(TUP_GET(ret, 0), 0) == ARR_AT(idx, 2) && TUP_GET(TUP_GET(ret, 0), 0) < ARR_AT(l, 0)
+      && TUP_GET(TUP_GET(ret, 1), 0) == MS_SEL(ARR_AT(r, 0), ARR_AT(idx, 0)) && TUP_GET(TUP_GET(ret, 1), 0) < ARR_AT(r, 0)
+      && TUP_GET(TUP_GET(ret, 1), 1) == MS_SEL(ARR_AT(r, 1), ARR_AT(idx, 1)) && TUP_GET(TUP_GET(ret, 1), 1) < ARR_AT(r, 1)
+      && TUP_GET(TUP_GET(ret, 1), 3) == ARR_AT(idx, 3) && TUP_GET(TUP_GET(ret, 1), 3) < ARR_AT(r, 3); }
+
+/* (b0,b1,n,k) x (c1,k,m) -> (b0, bcast(b1,c1), n, m): batch parts of different rank on both sides */
+static inline int pre_verif_matmul_slices_43(a4_t idx, a4_t l, a3_t r, a4_t shape)
+{ return ms_pos(&ARR_AT(l, 0), 4) && ms_pos(&ARR_AT(r, 0), 3) && ARR_AT(l, 3) == ARR_AT(r, 1)
+      && MS_BC_OK(ARR_AT(l, 1), ARR_AT(r, 0))
+      && ARR_AT(shape, 0) == ARR_AT(l, 0) && ARR_AT(shape, 1) == MAXU(ARR_AT(l, 1), ARR_AT(r, 0))
+      && ARR_AT(shape, 2) == ARR_AT(l, 2) && ARR_AT(shape, 3) == ARR_AT(r, 2) && MS_IN(idx, shape, 4); }
+static inline int post_verif_matmul_slices_43(a4_t idx, a4_t l, a3_t r, a4_t shape, sl43_t ret)
+{ return TUP_GET(TUP_GET(ret, 0), 0) == MS_SEL(ARR_AT(l, 0), ARR_AT(idx, 0)) && TUP_GET(TUP_GET(ret, 0), 0) < ARR_AT(l, 0)
+      && TUP_GET(TUP_GET(ret, 0), 1) == MS_SEL(ARR_AT(l, 1), ARR_AT(idx, 1)) && TUP_GET(TUP_GET(ret, 0), 1) < ARR_AT(l, 1)
+      && TUP_GET(TUP_GET(ret, 0), 2) == ARR_AT(idx, 2) && TUP_GET(TUP_GET(ret, 0), 2) < ARR_AT(l, 2)
+      && TUP_GET(TUP_GET(ret, 1), 0) == MS_SEL(ARR_AT(r, 0), ARR_AT(idx, 1)) && TUP_GET(TUP_GET(ret, 1), 0) < ARR_AT(r, 0)
+      && TUP_GET(TUP_GET(ret, 1), 2) == ARR_AT(idx, 3) && TUP_GET(TUP_GET(ret, 1), 2) < ARR_AT(r, 2); }
